@@ -105,6 +105,9 @@ def handle (op : String) (args : List String) : Option String :=
   | "vars.resolve" => run doResolve
   | "vars.env" => run doEnv
   | "vars.product" => run doProduct
+  -- execution consistency: what each call printed (command and deferred command) must be the values
+  -- resolved for that call, which the `vars.resolve` lines of the same case tie to the model
+  | "vars.run" => some (" ".intercalate args)
   | _ => none
 
 end Driver.Vars
